@@ -35,6 +35,7 @@ var pureStdlib = map[string]bool{
 	"encoding/binary.littleEndian.Uint32": true, "encoding/binary.littleEndian.Uint64": true,
 	"crypto/sha1.Sum": true,
 	"time.Now": true,
+	"(*sync.Pool).Get": true, "(*sync.Pool).Put": true,
 	"(*gopkg.in/src-d/go-errors.v1.Kind).New": true, "gopkg.in/src-d/go-errors.v1.NewKind": true, "(*gopkg.in/src-d/go-errors.v1.Kind).Is": true,
 	"(time.Duration).String": true, "(time.Duration).Seconds": true, "(time.Time).Sub": true, "time.Since": true, "(time.Time).Unix": true, "(time.Time).UnixMicro": true, "(time.Time).Hour": true, "(time.Time).Minute": true,
 	"(time.Time).Second": true, "(time.Time).Nanosecond": true, "(time.Time).IsZero": true, "(time.Time).Equal": true, "(time.Time).Before": true, "(time.Time).After": true,
@@ -93,6 +94,10 @@ func (vc *VC) callModifies(c *ssa.CallCommon, mod map[string]bool) {
 			mod[builderAccHeap] = true
 			return
 		}
+		if strings.HasPrefix(calleeName(f), xxDigestPrefix) {
+			mod[writerAccHeap] = true
+			return
+		}
 		if n := calleeName(f); len(c.Args) > 0 && strings.HasPrefix(n, "(*sync.") {
 			if md, _, _ := vc.monitorOf(c.Args[0]); md != nil {
 				if strings.HasSuffix(n, "Lock") && !strings.HasSuffix(n, "Unlock") {
@@ -121,6 +126,10 @@ func (vc *VC) callModifies(c *ssa.CallCommon, mod map[string]bool) {
 			return
 		}
 	} else if c.IsInvoke() {
+		if c.Method.Name() == "Write" && isIOWriter(c.Value.Type()) {
+			mod[writerAccHeap] = true
+			return
+		}
 		if fi := vc.P.ifaceContract(c.Method); fi != nil && len(fi.fc.Modifies) > 0 {
 			for _, h := range vc.modifiesHeaps(fi) {
 				mod[h] = true
@@ -268,6 +277,9 @@ func (vc *VC) call(in ssa.Instruction, c *ssa.CallCommon, st *State, reach Term)
 		if r, ok := vc.builderModel(calleeName(f), args, st, reach, rt, pos); ok {
 			return r
 		}
+		if r, ok := vc.digestModel(calleeName(f), args, st, reach, rt, pos); ok {
+			return r
+		}
 		if r, ok := vc.stdlibModel(calleeName(f), c, args, st, reach, rt, pos); ok {
 			return r
 		}
@@ -292,6 +304,9 @@ func (vc *VC) call(in ssa.Instruction, c *ssa.CallCommon, st *State, reach Term)
 		}
 	} else if c.IsInvoke() {
 		if r, ok := vc.hashInvoke(c, args, st, reach, rt, pos); ok {
+			return r
+		}
+		if r, ok := vc.writerInvoke(c, args, st, reach, rt, pos); ok {
 			return r
 		}
 		if fi := vc.P.ifaceContract(c.Method); fi != nil {
@@ -417,6 +432,11 @@ func (vc *VC) havocByTypes(ts []types.Type, all bool, st *State) {
 		if isStringsBuilder(t) {
 			if _, ok := vc.heapSort[builderAccHeap]; ok {
 				names[builderAccHeap] = true
+			}
+		}
+		if isXXDigest(t) {
+			if _, ok := vc.heapSort[writerAccHeap]; ok {
+				names[writerAccHeap] = true
 			}
 		}
 		switch u := t.Underlying().(type) {
@@ -737,6 +757,11 @@ func (vc *VC) frameCheck(st *State, reach Term, pos token.Pos) {
 		cur := vc.heapGet(st, name, sort)
 		old := vc.heapGet(vc.entry, name, sort)
 		if cur == old || whole[name] {
+			continue
+		}
+		if strings.HasPrefix(sort, "(Array Dyn ") {
+			// ghost heaps indexed by interface values (writers, streams): unchanged as a whole
+			vc.oblige("frame", name, reach, eq(cur, old), pos, "modifies (frame of "+name+")")
 			continue
 		}
 		if strings.HasPrefix(name, "G_") {
@@ -1108,7 +1133,29 @@ func (vc *VC) pureFieldKey(t types.Type, field string) (string, bool) {
 	return "", false
 }
 
+// pureFuncKey: t is a named function type declared `purefunc TYPE` in its package's contract file.
+func (vc *VC) pureFuncKey(t types.Type) (string, bool) {
+	n, ok := types.Unalias(t).(*types.Named)
+	if !ok || n.Obj().Pkg() == nil {
+		return "", false
+	}
+	if _, isSig := n.Underlying().(*types.Signature); !isSig {
+		return "", false
+	}
+	if pc := vc.P.pcs[n.Obj().Pkg().Path()]; pc != nil {
+		for _, f := range pc.PureFuncs {
+			if strings.TrimSpace(f) == n.Obj().Name() {
+				return n.Obj().Pkg().Path() + "." + n.Obj().Name(), true
+			}
+		}
+	}
+	return "", false
+}
+
 func (vc *VC) pureFieldOfValue(v ssa.Value) (string, bool) {
+	if key, ok := vc.pureFuncKey(v.Type()); ok {
+		return key, true
+	}
 	switch x := v.(type) {
 	case *ssa.Field:
 		if st, ok := x.X.Type().Underlying().(*types.Struct); ok {
@@ -1215,6 +1262,11 @@ func (vc *VC) heapItem(fi *FuncInfo, item string) (string, bool) {
 		return "", false
 	}
 	src := strings.TrimSpace(item[5:])
+	if src == "writers" {
+		vc.bytesOn()
+		vc.heapGet(vc.entry, writerAccHeap, writerAccSort)
+		return writerAccHeap, true
+	}
 	pos := token.NoPos
 	if fi.decl != nil && fi.decl.Body != nil {
 		pos = fi.decl.Body.Lbrace + 1
